@@ -509,12 +509,12 @@ func (m *machine) transitions(w *World, fn *ssa.Function) ([]*transition, string
 }
 
 type machineGraph struct {
-	m     *machine
-	trans map[string][]*transition
-	names []string
-	entry map[string]uint64 // possible look-ahead types on entry to each state
-	init  string
-	errs  []string
+	m          *machine
+	trans      map[string][]*transition
+	names      []string
+	entry      map[string]uint64 // possible look-ahead types on entry to each state
+	init       string
+	errs       []string
 	containers map[string]uint64
 }
 
@@ -1343,8 +1343,8 @@ func ruleProdConsumer(w *World, r *RuleResult) {
 		if ctor == nil {
 			continue
 		}
-		for _, call := range w.Callers(ctor) {
-			caller := call.Parent()
+		for _, callRoot := range w.CallerRoots(ctor) {
+			caller := callRoot
 			paths, err := w.Paths(caller)
 			if err != nil {
 				continue
